@@ -98,6 +98,7 @@ def artifacts(need_native=True, need_mir=(), need_replay=False):
         h = _tree_hash(src)
         art = os.path.join(BUILD, "art", h)
         os.makedirs(art, exist_ok=True)
+        os.utime(art, None)                      # last use, for _gc_art
         res = {"hash": h, "dir": art, "mir": {}}
         sylt = os.path.join(art, "sylt")
         if need_native and not os.path.exists(sylt):
@@ -145,11 +146,13 @@ def _crate_root(src, crate):
     return os.path.join(src, crate, m.group(1) if m else "src/lib.rs")
 
 
-def _gc_art(keep, maxn=6):
+def _gc_art(keep, maxn=6, min_age_s=6 * 3600):
+    """drops cached artifact sets beyond the newest `maxn`, but never one used in the last hours (a long thorough run may still need it)"""
     d = os.path.join(BUILD, "art")
     ents = sorted((os.path.getmtime(os.path.join(d, e)), e) for e in os.listdir(d))
-    for _, e in ents[:-maxn]:
-        if e != keep:
+    now = time.time()
+    for mt, e in ents[:-maxn]:
+        if e != keep and now - mt > min_age_s:
             shutil.rmtree(os.path.join(d, e), ignore_errors=True)
 
 
